@@ -43,6 +43,10 @@ impl<'a> Src<'a> {
     pub fn used(&self) -> usize {
         self.i
     }
+    /// the whole choice sequence of the case (to re-execute a case from a recorded position)
+    pub fn all(&self) -> &'a [u32] {
+        self.d
+    }
     pub fn raw(&mut self) -> u32 {
         let v = self.d.get(self.i).copied().unwrap_or(0);
         self.i += 1;
@@ -385,17 +389,23 @@ pub struct Sub {
     /// number of parallel generator streams (fixed, so that results do not depend on the machine)
     pub streams: usize,
     pub max_shrink_iters: u32,
+    /// exhaustive subs: indices handed to a stream at a time (1 for expensive cases)
+    pub block: u64,
 }
 
 impl Sub {
     pub const fn random(name: &'static str, len: usize, quick: u64, thorough: u64, f: CaseFn, rule: &'static str) -> Self {
-        Self { name, kind: Kind::Random { len, quick, thorough }, f, rule, streams: 16, max_shrink_iters: 400 }
+        Self { name, kind: Kind::Random { len, quick, thorough }, f, rule, streams: 16, max_shrink_iters: 400, block: 64 }
     }
     pub const fn exhaustive(name: &'static str, quick: u64, thorough: u64, f: CaseFn, rule: &'static str) -> Self {
-        Self { name, kind: Kind::Exhaustive { quick, thorough }, f, rule, streams: 16, max_shrink_iters: 0 }
+        Self { name, kind: Kind::Exhaustive { quick, thorough }, f, rule, streams: 16, max_shrink_iters: 0, block: 64 }
     }
     pub const fn streams(mut self, s: usize) -> Self {
         self.streams = s;
+        self
+    }
+    pub const fn block(mut self, b: u64) -> Self {
+        self.block = b;
         self
     }
     pub const fn shrink_iters(mut self, s: u32) -> Self {
@@ -545,11 +555,11 @@ impl Report {
                             let mut local = SubStats::default();
                             loop {
                                 // blocks of indices to keep contention low
-                                let base = next.fetch_add(64, Ordering::Relaxed);
+                                let base = next.fetch_add(sub.block, Ordering::Relaxed);
                                 if base >= count || stop.load(Ordering::Relaxed) {
                                     break;
                                 }
-                                for i in base..(base + 64).min(count) {
+                                for i in base..(base + sub.block).min(count) {
                                     let choices = [i as u32, (i >> 32) as u32];
                                     let r = Self::run_case(env, sub.f, &choices);
                                     record(&choices, &r, &mut local, true);
